@@ -69,12 +69,33 @@ pub fn strategy() -> impl Strategy<Value = Case> {
         (prop::option::weighted(0.25, (prop::option::weighted(0.8, gen::gdoc()), prop::option::weighted(0.8, gen::gdoc()), prop::option::weighted(0.6, gen::gdoc()))), prop::option::weighted(0.12, prop::sample::select(vec![-1i32, -22, i32::MIN])), prop::bool::weighted(0.12)),
     )
         .prop_map(|(ws, imds, hostga, mut rec, req, more, (later_rules, admin_raw, morph))| {
+            let morph = morph && rec.is_some();
+            let (mut imds, mut later_rules) = (imds, later_rules);
             if morph {
                 if let Some(r) = rec.as_mut() {
                     r.helper_sel = crate::rig::CHAMELEON;
+                    // half of these cases: IMDS rules that grant everything to ONE of the two programs the process
+                    // alternates between, so that the decision depends on the image it has now
+                    if r.uid_sel % 2 == 0 {
+                        r.dest = DestSel::Imds;
+                        let exe = gen::EXES[if r.uid_sel % 4 == 0 { 0 } else { 1 }];
+                        imds = Some(
+                            GDoc {
+                                mode: "enforce".into(),
+                                default_access: "deny".into(),
+                                id: String::new(),
+                                rules_present: true,
+                                privileges: Some(vec![gen::GPriv { name: "p0".into(), path: "/".into(), query: None }]),
+                                roles: Some(vec![gen::GRole { name: "r0".into(), privileges: vec!["p0".into()] }]),
+                                identities: Some(vec![gen::GIdent { name: "i0".into(), user: None, group: None, exe: Some(exe.to_string()), proc_name: None }]),
+                                assignments: Some(vec![gen::GAssign { role: "r0".into(), identities: vec!["i0".into()] }]),
+                            }
+                            .with_content_id(),
+                        );
+                        later_rules = None;
+                    }
                 }
             }
-            let morph = morph && rec.is_some();
             Case { ws, imds, hostga, rec, req, more, later_rules, admin_raw, morph }
         })
 }
